@@ -16,31 +16,34 @@ Traces == JsonDeserialize(IOEnv.TRACE_FILE)
 
 Outcome(e) == IF e.op = "save" THEN SaveResult(kinds, fs, mem, e).out ELSE "Ok"
 FsAfter(e) == IF e.op = "save" THEN [fs EXCEPT ![e.p] = SaveResult(kinds, fs, mem, e).file] ELSE fs
-ResOf(e) == IF e.op = "load" THEN Owner(kinds, fs[e.p]) ELSE 0
+ResOf(e) == IF e.op = "load" THEN Owner(kinds, fs[e.p]) ELSE IF e.op = "sload" THEN StreamRead(strm) ELSE 0
 
 TInit == /\ tid \in 1..Len(Traces) /\ l = 1
          /\ kinds = Traces[tid].kinds
          /\ fs = [p \in Paths |-> Absent]
          /\ mem = [o \in Objs |-> Cells(kinds, o)]
          /\ loaded = 0 /\ held = {} /\ hist = <<>>
+         /\ strm = [items |-> <<>>, pos |-> 0]
 
 TStep == /\ l >= 1 /\ l <= Len(Traces[tid].steps)
          /\ LET rec == Traces[tid].steps[l]  e == rec.ev
-                en == Enabled(fs, loaded, held, e)
+                en == Enabled(fs, loaded, held, strm, e)
                 okOut == en /\ rec.out = Outcome(e)
                 okFs == en /\ rec.post = View(kinds, FsAfter(e))
                 okRes == en /\ rec.res = ResOf(e)
                 okMem == rec.memok = 1
-            IN IF okOut /\ okFs /\ okRes /\ okMem
+                okStream == en /\ rec.spost = StreamAfter(strm, e)
+            IN IF okOut /\ okFs /\ okRes /\ okMem /\ okStream
                THEN /\ Step(e) /\ l' = l + 1
                     /\ (l = Len(Traces[tid].steps) => PrintT(ToJson([accept |-> tid])))
                ELSE /\ PrintT(ToJson([reject |-> tid, l |-> l, ev |-> e, enabled |-> en,
                                       clause |-> IF ~en THEN "enabled" ELSE IF ~okOut THEN "outcome"
-                                                 ELSE IF ~okFs THEN "fs" ELSE IF ~okRes THEN "loaded" ELSE "mem",
+                                                 ELSE IF ~okFs THEN "fs" ELSE IF ~okRes THEN "loaded"
+                                                 ELSE IF ~okMem THEN "mem" ELSE "stream",
                                       expected |-> IF en THEN [out |-> Outcome(e), post |-> View(kinds, FsAfter(e)),
-                                                               res |-> ResOf(e)]
-                                                   ELSE [out |-> "", post |-> View(kinds, fs), res |-> 0]]))
-                    /\ UNCHANGED <<fs, mem, loaded, held, kinds, hist>> /\ l' = 0
+                                                               res |-> ResOf(e), spost |-> StreamAfter(strm, e)]
+                                                   ELSE [out |-> "", post |-> View(kinds, fs), res |-> 0, spost |-> strm]]))
+                    /\ UNCHANGED <<fs, mem, loaded, held, kinds, strm, hist>> /\ l' = 0
          /\ UNCHANGED tid
-TSpec == TInit /\ [][TStep]_<<fs, mem, loaded, held, kinds, hist, tid, l>>
+TSpec == TInit /\ [][TStep]_<<fs, mem, loaded, held, kinds, strm, hist, tid, l>>
 =============================================================================
